@@ -45,7 +45,7 @@ def _one(sig, i, in_array=False):
         if j >= len(sig) or sig[j] != '}':
             raise SigError('dict entry must have exactly two fields')
         return j + 1
-    raise SigError('bad type code %r' % c)
+    raise SigError('bad type code')
 
 
 def split(sig):
